@@ -290,6 +290,7 @@ def judge(case, res):
     if "obs" not in res:
         return ("harness-or-crash", "history could not be run: %s" % json.dumps(res)[:300], 0)
     fresh = res["fresh"]
+    sig = res.get("fresh_sig") or list(range(len(fresh)))
     initialized = False       # has this process already checked the database (clean version parse since reload)
     fault_since = False       # a models-breaking fault happened while initialized, no reload since
     clean = True
@@ -321,23 +322,24 @@ def judge(case, res):
                         % (i, {"tree": "the same tree", "none": "None", "other": "a DIFFERENT tree/object"}[got],
                            {"tree": "a tree", "none": "None"}[want]), i)
             if clean:
-                if got == "tree" and ob.get("fresh_calls") == 0 and (op[1], cur_ver) not in parsed_under:
+                if got == "tree" and ob.get("fresh_calls") == 0 and (sig[op[1]], cur_ver) not in parsed_under:
                     return ("served-without-being-stored", "op %d: text %d was served from the cache under version %d "
-                            "although it was never parsed under that version in this history (entry of another "
-                            "version or text served)" % (i, op[1], cur_ver), i)
-                parsed_under.add((op[1], cur_ver))
+                            "although no text with this tree was parsed under that version in this history (entry "
+                            "of another version served)" % (i, op[1], cur_ver), i)
+                parsed_under.add((sig[op[1]], cur_ver))
                 initialized, fault_since = True, False
         st = ob.get("store")
         if isinstance(st, list):
-            for ti, ver, status in st:
-                if ti < 0:
-                    return ("foreign-row", "op %d: row under a key that is no text of the history" % i, i)
-                if fresh[ti] == "none":
-                    return ("failed-parse-stored", "op %d: a row exists under the key of text %d, which has a syntax "
-                            "error (blob: %s)" % (i, ti, status), i)
-                if status == "other" or (status == "none" and ti not in none_injected):
-                    return ("row-not-own-tree", "op %d: the row of text %d (%s) unpickles to %s" %
-                            (i, ti, ver, "None" if status == "none" else "something that is not that text's tree"), i)
+            for row in st:
+                ver = row[1]
+                # every text of the history that has this row's key (a row no text can be attributed to is not judged)
+                for ti, status in (row[3] if len(row) > 3 else ([[row[0], row[2]]] if row[0] >= 0 else [])):
+                    if fresh[ti] == "none":
+                        return ("failed-parse-stored", "op %d: a row exists under the key of text %d, which has a "
+                                "syntax error (blob: %s)" % (i, ti, status), i)
+                    if status == "other" or (status == "none" and ti not in none_injected):
+                        return ("row-not-own-tree", "op %d: the row under the key of text %d (%s) unpickles to %s" %
+                                (i, ti, ver, "None" if status == "none" else "something that is not that text's tree"), i)
     return None
 
 
@@ -362,9 +364,12 @@ def enc_store(st):
     if not isinstance(st, list):
         return "SUnreadable"
     items = []
-    for ti, ver, status in st:
+    for row in st:
+        ti, ver, status = row[0], row[1], row[2]
+        if ti < 0:
+            continue
         b = {"good": "BGood", "none": "BNone", "other": "BOther"}.get(status) or "(BRaises %s)" % enc_exn(status[7:])
-        items.append("(%s, %s, %s)" % (cq_nat(max(ti, 0) if ti >= 0 else 999), cq_nat(enc_ver(ver)), b))
+        items.append("(%s, %s, %s)" % (cq_nat(ti), cq_nat(enc_ver(ver)), b))
     return "(SRows %s)" % cq_list(items)
 
 
@@ -471,7 +476,11 @@ def shrink(ctx, case, tag):
     used = sorted({op[1] for op in cur["ops"] if op[0] in ("parse", "entry")})
     remap = {t: i for i, t in enumerate(used)}
     ops = [[op[0], remap[op[1]]] + op[2:] if op[0] in ("parse", "entry") else op for op in cur["ops"]]
-    return {"texts": [cur["texts"][t] for t in used], "ops": ops}
+    small = {"texts": [cur["texts"][t] for t in used], "ops": ops}
+    # dropping the unused texts must not lose the failure (a colliding sibling text may be what the store facts
+    # are about): keep the full text list unless the same tag reproduces without it
+    v = judge(small, core.run_child(ctx, "c01", [small])[0])
+    return small if v and v[0] == tag else cur
 
 
 def run(ctx):
@@ -559,7 +568,8 @@ def run(ctx):
         "pickle_loads_exception_class_per_corruption_kind": {k: sorted(v) for k, v in sorted(seen_classes.items())},
     }
     ctx.oblige("vacuity:cache-rows-observed-in-sqlite-file", rows_seen > 0,
-               "no row was ever seen in the cache database: the cache is being bypassed (dirty version?)")
+               "no row attributable to a text of the histories was ever seen in the cache database: the cache is being "
+               "bypassed (dirty version?) or the key derivation is not observable (_calculate_txt_hash / sha256)")
 
     # ---- S2: Gen.v + Tie_C01.v --------------------------------------------------------------------
     gen = ("From Coq Require Import List.\nImport ListNotations.\nFrom PV Require Import Model.C01_cache.\n"
